@@ -66,7 +66,7 @@ def catalogue():
                            "o": {"default": D(("d", 1)), "default_callable": True}}, [D(("k", 1)), D((" K ", "2"))], [D(("k", "x")), [1]])
     c["int-cd"] = ({"k": "Int", "o": {"default": 3, "default_callable": True}}, [1, "2"], ["x"])
     c["challenge-dflt"] = ({"k": "Challenge", "o": {"hash_algorithm": "sha1", "default": "dfl-secret"}}, ["pw", "pw2"], [5])
-    c["secure-aes"] = ({"k": "Secure", "o": {"method": "aes"}}, ["s3cret-ZQ", "p\u00e4ss w\u00f6rd"], [])
+    c["secure-aes"] = ({"k": "Secure", "o": {"method": "aes"}}, ["s3cret-ZQ", "p\u00e4ss w\u00f6rd", "0123456789abcdef", "block-aligned-secret-of-32-bytes"], [])
     c["secure-xor"] = ({"k": "Secure", "o": {"method": "xor", "default": "dflt-secret"}}, ["s3cret-ZQ", "", "0123456789abcdefghijABCDEFGHIJ!@#$%^&*()-longer-than-the-key"], [])
     c["secure-best"] = ({"k": "Secure"}, ["s3cret-ZQ", "x" * 40], [])
     c["bytes-hex"] = ({"k": "Bytes", "o": {"encoding": "hex", "default": Y(b"\x00\xff")}}, [Y(b"ab"), Y(bytes(range(7)))], [5])
